@@ -26,6 +26,16 @@ CHECKS["C19"] = dict(
     note="Assumed contracts of str.rsplit, tuple unpacking, importlib.import_module (ValueError/TypeError/ModuleNotFoundError or a module; "
          "importing does not run failing user code), getattr, issubclass, __name__ on non-classes; pyvc semantics; z3 string solver.",
 )
+CHECKS["C12"] = dict(
+    category="other",
+    technique="contract-based deductive verification: pre/post contracts on argument merging, dispatch and per-binding instantiation (real ast, z3); arity enumerated",
+    text="merge_args_and_kwargs, symbolic_function.wrapper, Predicate.__new__ and Variable._instantiate_using_child_vars_and_yield_results_ "
+         "are executed symbolically with opaque (arbitrary) argument values for every arity 0..3, every positional/keyword split and every "
+         "position of the variable; the per-binding invocation contract is proved over an abstract stream of combinations of any length "
+         "(loop rule). Level is 'other' because arity is enumerated, not quantified. Bounded stand-in: native functions/predicates, "
+         "results and call log vs concrete filtering.",
+    note="Assumed: inspect.signature parameter order, itertools.product = Cartesian product, user callables opaque; pyvc semantics; z3.",
+)
 NOT_APPLICABLE = {
     "C05": "decided by SQLAlchemy/SQLite semantics acting on generated code; no krrood function body carries it, so no contract within reach can express it (DESIGN.md §4)",
 }
